@@ -1,6 +1,6 @@
 (* C18 — dense vectors and dense matrices: round trip for every view (slice / transpose
-   composition: the writer repacks to a fresh row-major layout), reader characterisation,
-   refutation of reader safety. *)
+   composition: the writer repacks to a fresh row-major layout), reader safety (d37b260) on every
+   document whose Rows*Cols does not overflow, and the refutation for the overflowing ones. *)
 From Coq Require Import ZArith List Bool Lia.
 From ADV Require Import C18.Model C18.Spec C18.ProofsBase.
 Import ListNotations.
@@ -144,19 +144,22 @@ Qed.
 
 (* ---------------------------------------------------------------- the round trip, all views *)
 Lemma dm_roundtrip (m : dmat E) d b :
-  wf_dm m -> Forall good (dm_vals m) ->
+  wf_dm m -> dm_rows m * dm_cols m < 2^63 -> Forall good (dm_vals m) ->
   write_dm E D wr ezero m = Ok d ->
   exists m', read_dm E D rd b d = Ok m' /\ wf_dm m' /\ dm_obs_eq R m m'.
 Proof.
-  intros Hwf Hg Hw. unfold write_dm in Hw. fold (packed m) in Hw.
+  intros Hwf Hbound Hg Hw. unfold write_dm in Hw. fold (packed m) in Hw.
   apply bind_ok in Hw as (vals & Hv & Hw). apply bind_ok in Hw as (docs & Hd & Hw). inversion Hw; subst d; clear Hw.
   destruct (packed_spec m vals Hwf Hv) as (Hlen & Hat & Hin).
   assert (Forall good vals) as Hgv.
   { apply Forall_forall. intros e He. eapply Forall_forall in Hg; [eassumption|]. apply Hin; assumption. }
   destruct (list_roundtrip _ _ Hgv Hd) as (vals' & Hr & HF).
   pose proof Hwf as (H1 & H2 & H3 & H4 & H5 & H6 & H7).
+  assert (zlen docs = dm_rows m * dm_cols m) as Hlend.
+  { apply mapR_Forall2 in Hd. apply Forall2_length' in Hd. unfold zlen in *. lia. }
   unfold read_dm; simpl. rewrite Hr; simpl.
-  replace ((dm_rows m <? 0) || (dm_cols m <? 0)) with false by lia. rewrite andb_false_r.
+  rewrite wrap64_small by nia. rewrite Hlend, Z.eqb_refl.
+  replace ((dm_rows m <? 0) || (dm_cols m <? 0)) with false by lia. simpl.
   eexists; split; [reflexivity|].
   assert (zlen vals' = dm_rows m * dm_cols m) as Hlen'.
   { apply Forall2_length' in HF. unfold zlen in *. lia. }
@@ -185,34 +188,68 @@ Proof.
   destruct (dm_at_wf m _ _ Hwf H0 H) as (e & He & _). eauto.
 Qed.
 
-(* ---------------------------------------------------------------- the reader validates nothing *)
-Lemma read_dm_shape d m b :
+(* ---------------------------------------------------------------- the reader's validation (d37b260) *)
+(* what every accepted document guarantees, and exactly when the result is well-formed: when Rows*Cols
+   did not wrap around *)
+Lemma read_dm_safe d m b :
   read_dm E D rd b d = Ok m ->
-  dm_rows m = dmd_rows d /\ dm_cols m = dmd_cols d /\ zlen (dm_vals m) = zlen (dmd_values d) /\
-  (wf_dm m <-> 0 <= dmd_rows d /\ 0 <= dmd_cols d /\ zlen (dmd_values d) = dmd_rows d * dmd_cols d).
+  dm_rows m = dmd_rows d /\ dm_cols m = dmd_cols d /\ 0 <= dm_rows m /\ 0 <= dm_cols m /\
+  zlen (dm_vals m) = zlen (dmd_values d) /\ zlen (dm_vals m) = wrap64 (dmd_rows d * dmd_cols d) /\
+  (wf_dm m <-> dmd_rows d * dmd_cols d < 2^63).
 Proof.
   unfold read_dm. intros H. apply bind_ok in H as (vals & Hv & H).
-  destruct (b && ((dmd_rows d <? 0) || (dmd_cols d <? 0))); [discriminate|].
+  destruct ((dmd_rows d <? 0) || (dmd_cols d <? 0) || negb (zlen (dmd_values d) =? wrap64 (dmd_rows d * dmd_cols d))) eqn:Ec;
+    [discriminate|].
   inversion H; subst; simpl; clear H.
+  apply orb_false_elim in Ec as [Ec El]. apply orb_false_elim in Ec as [Er Ecc].
+  apply negb_false_iff in El. apply Z.eqb_eq in El.
   apply mapR_Forall2 in Hv. apply Forall2_length' in Hv.
   assert (zlen vals = zlen (dmd_values d)) as Hl by (unfold zlen; lia).
-  split; [reflexivity|]. split; [reflexivity|]. split; [assumption|].
-  unfold wf_dm; simpl. rewrite Hl. split; intros; repeat split; try lia.
+  split; [reflexivity|]. split; [reflexivity|]. split; [lia|]. split; [lia|]. split; [assumption|].
+  split; [congruence|].
+  pose proof (wrap64_range (dmd_rows d * dmd_cols d)) as Hw.
+  unfold wf_dm; simpl. rewrite Hl, El. split.
+  - intros (_ & _ & _ & _ & _ & _ & H). lia.
+  - intros Hb. rewrite wrap64_small by nia. repeat split; lia.
 Qed.
+
+(* no panic: the element reader is the only thing that runs before the checks *)
+Lemma mapR_no_panic (l : list D) :
+  (forall x, rd x <> Panic /\ rd x <> Crash) -> mapR rd l <> Panic /\ mapR rd l <> Crash.
+Proof.
+  intros Hrd. induction l as [|x l IH]; simpl; [split; discriminate|].
+  destruct (Hrd x) as [H1 H2]. destruct (rd x); simpl; try contradiction; try (split; discriminate).
+  destruct IH as [I1 I2]. destruct (mapR rd l); simpl; try contradiction; split; discriminate.
+Qed.
+Lemma read_dm_total d b :
+  (forall x, rd x <> Panic /\ rd x <> Crash) -> read_dm E D rd b d <> Panic /\ read_dm E D rd b d <> Crash.
+Proof.
+  intros Hrd. unfold read_dm. destruct (mapR_no_panic (dmd_values d) Hrd) as [H1 H2].
+  destruct (mapR rd (dmd_values d)); simpl; try contradiction; try (split; discriminate).
+  destruct (_ || _); split; discriminate.
+Qed.
+Lemma read_dv_total d :
+  (forall x, rd x <> Panic /\ rd x <> Crash) -> read_dv E D rd d <> Panic /\ read_dv E D rd d <> Crash.
+Proof. apply mapR_no_panic. Qed.
 
 End Dense.
 
-(* ---------------------------------------------------------------- refutation (integer instance) *)
+(* ---------------------------------------------------------------- integer instance *)
 Definition Zrdm := read_dm Z Z (read_plain Z Z Zparse) false.
 
-Lemma dense_reader_unsafe_refuted :
-  exists d m, Zrdm d = Ok m /\ ~ wf_dm m /\ dm_at Z m 0 0 = Panic.
+(* STILL A DEFECT at HEAD (F-JSON-DENSE-OVERFLOW): the check len(Values) != Rows*Cols is made on a wrapping
+   product, 2^32 * 2^32 = 0 = len([]) *)
+Lemma dense_reader_overflow_refuted' :
+  exists d m, Zrdm d = Ok m /\ ~ wf_dm m /\ dm_rows m = 2^32 /\ dm_at Z m 0 0 = Panic.
 Proof.
-  exists (mkDmDoc [] 1 1). eexists. split; [reflexivity|]. split; [|reflexivity].
+  exists (mkDmDoc [] (2^32) (2^32)). eexists. split; [vm_compute; reflexivity|]. split; [|split; reflexivity].
   intros (_ & _ & _ & _ & _ & _ & H). vm_compute in H. discriminate.
 Qed.
 
-(* Real matrices crop their scratch vectors: a negative dimension panics *)
-Lemma dense_real_reader_panics_refuted :
-  read_dm Z Z (read_plain Z Z Zparse) true (mkDmDoc [] (-1) 0) = Panic.
-Proof. reflexivity. Qed.
+(* witnesses of the retired F-JSON-DENSE: errors now, for plain and Real matrices *)
+Lemma dense_reader_regression :
+  Zrdm (mkDmDoc [] 1 1) = Err /\ Zrdm (mkDmDoc [1; 2; 3] 2 2) = Err /\ Zrdm (mkDmDoc [] (-1) 0) = Err /\
+  read_dm Z Z (read_plain Z Z Zparse) true (mkDmDoc [] (-1) 0) = Err /\
+  read_dm Z Z (read_plain Z Z Zparse) true (mkDmDoc [] 0 (-1)) = Err /\
+  Zrdm (mkDmDoc [1; 2] 1 2) = Ok (mkDm [1; 2] 1 2 0 1 0 2 false).
+Proof. repeat split; reflexivity. Qed.
